@@ -4,7 +4,8 @@ w=$1; pid=$2; name=$3
 out=/verif/seeded/$name; mkdir -p $out
 cp $w/patch.diff $out/patch.diff; cp $w/demo_$pid.py $out/; cp $w/notes.md $out/notes.md 2>/dev/null
 cd $w && git checkout -q -- . 2>/dev/null
-echo "== demo on unchanged code"; (cd $w && AIOKAFKA_NO_EXTENSIONS=1 timeout 600 /venv/bin/python demo_$pid.py > /tmp/demo_before.log 2>&1; echo "exit=$?" ) | tee $out/confirm.log
-echo "== demo with the change"; (cd $w && git apply patch.diff && AIOKAFKA_NO_EXTENSIONS=1 timeout 600 /venv/bin/python demo_$pid.py > /tmp/demo_after.log 2>&1; echo "exit=$?"; tail -3 /tmp/demo_after.log) | tee -a $out/confirm.log
+echo "== demo on unchanged code"; (cd $w && AIOKAFKA_NO_EXTENSIONS=1 timeout 600 /venv/bin/python demo_$pid.py > /tmp/demo_before_$$.log 2>&1; echo "exit=$?" ) | tee $out/confirm.log
+echo "== demo with the change"; (cd $w && git apply patch.diff && AIOKAFKA_NO_EXTENSIONS=1 timeout 600 /venv/bin/python demo_$pid.py > /tmp/demo_after_$$.log 2>&1; echo "exit=$?"; tail -3 /tmp/demo_after_$$.log) | tee -a $out/confirm.log
 echo "== test-suite with the change"; (cd $w && AIOKAFKA_NO_EXTENSIONS=1 timeout 1500 /venv/bin/python -m pytest -q -p no:cacheprovider tests -x -q 2>&1 | tail -2) | tee -a $out/confirm.log
 cd $w && git checkout -q -- .
+rm -f /tmp/demo_before_$$.log /tmp/demo_after_$$.log
